@@ -63,7 +63,7 @@ CHECKS.update({
         'when fewer than min_points observations are in range, otherwise the exact OK solution of the selected neighbourhood. '
         'Tie: per-target correspondence and whole-call correspondence with the end-to-end model - Lean '
         'selects neighbours on the exact float distances and solves the system exactly over Q; z, sigma^2, NaN pattern and '
-        'counters are compared with OrdinaryKriging.transform.',
+        'counters are compared with OrdinaryKriging.transform. The key statements of _krige / _estimator / transform / find_closest are extracted from the source and pinned (C07_source_krige, C07_source_find_closest, C07_source_bookkeeping).',
    note='LAPACK solves are compared numerically (1e-12*cond); semivariances are taken from the implementation fitted '
         'model; mode="estimate" is outside the property.',
    technique='Lean 4 proof (sorting/permutation lemmas, fold invariant) + exact rational re-solution', design='6 C07'),
@@ -82,7 +82,7 @@ CHECKS.update({
         'coincide when the stored row entries are the in-range entries, and for ANY order of the stored entries the sparse selection is an admissible '
         'nearest-N choice, equal to the dense one up to order when no two in-range observations are equidistant; the kriging result is invariant under '
         'a relabelling of the selected neighbours; all solutions of an invertible system coincide '
-        '(any solver). Tie: runs over solver x sparse x array/MetricSpace targets x partitions/permutations x repeated calls.',
+        '(any solver). Tie: runs over solver x sparse x array/MetricSpace targets x partitions/permutations x repeated calls. C09_source_reset pins the per-call re-initialisation statements.',
    note='Agreement of the three LAPACK paths is numeric (1e-7 relative).',
    technique='Lean 4 proof (fold = map, Matrix uniqueness) + route-differential correspondence', design='6 C09'),
  'C10': dict(
@@ -100,13 +100,13 @@ CHECKS.update({
         'semivariances of every class with edge <= M coincide with the dense ones; even/uniform edges coincide when '
         'M >= largest distance or M is an occurring distance (partial); proved counter-examples for D9 (M between '
         'distances) and D10 (lost zero distances, repaired). Tie: three storage routes on identical data, model on both '
-        'record sets.',
+        'record sets. The sparse triangle extraction is pinned (C11_source_storage).',
    note='Known finding D9. cKDTree boundary decisions within rounding distance of max_dist are outside the property.',
    technique='Lean 4 proof (filter/permutation lemmas) + storage-differential correspondence', design='6 C11'),
  'C16': dict(
    text='Theorems: k-th cross difference is |dz1|*|dz2| of the k-th pair; crossDiffs is symmetric in the two variables, hence '
         'table entry (i,j) = (j,i) for every estimator/edges; the diagonal is the ordinary variogram of the column. Tie: '
-        'pairwise_diffs/experimental vs model, cross_variograms table symmetry/diagonal on the implementation.',
+        'pairwise_diffs/experimental vs model, cross_variograms table symmetry/diagonal on the implementation. The statements of cross_variograms are pinned (C16_source_table).',
    note='Directional base class is exercised once DirectionalVariogram can be constructed.',
    technique='Lean 4 proof (zipWith commutativity, index lemmas) + correspondence', design='6 C16'),
  'C17': dict(
@@ -114,7 +114,7 @@ CHECKS.update({
         'the remaining data; the leave-one-out prediction (composed with the C07 end-to-end model) does not depend on the value observed at the '
         'held-out point and uses all remaining observations; mse/mae scores depend on the estimable points only; counter-example for the pre-repair MAE '
         '(D3). Tie: the seeded subset is reproduced, every leave-one-out residual recomputed through the real '
-        'OrdinaryKriging on the reduced set (a sample through the exact C07 model), the whole jackknife through the end-to-end Lean model (exact solves), scores through the model.',
+        'OrdinaryKriging on the reduced set (a sample through the exact C07 model), the whole jackknife through the end-to-end Lean model (exact solves), scores through the model. C17_source pins the hold-out, deviation, index selection and score statements of cross_validation.py.',
    note='NumPy RNG stream is external (reproducibility observed).',
    technique='Lean 4 proof (eraseIdx lemmas) + correspondence', design='6 C17'),
  'C20': dict(
@@ -122,7 +122,7 @@ CHECKS.update({
         'among the in-range candidates (as C07); closed-form bijection between the condensed order and the upper triangle; identical for sparse and dense rows, for any storage order of the sparse row up to tie-breaking; '
         'a truncated row stores exactly the entries with d <= max_dist with their values; the double index remap of pair '
         'sampling is injective for samples without replacement. Tie: MetricSpace.dists / diagonal / find_closest / '
-        'ProbabalisticMetricSpace vs brute force and the model.',
+        'ProbabalisticMetricSpace vs brute force and the model. C20_source_find_closest / C20_source_dists pin the statements of find_closest, MetricSpace.dists, MetricSpacePair.dists and diagonal.',
    note='cKDTree and the NumPy RNG are external.',
    technique='Lean 4 proof (sorting/permutation, Nodup index lemmas) + correspondence', design='6 C20'),
 })
@@ -135,7 +135,7 @@ CHECKS.update({
         'and the call passes nugget 0; rss = n*mse; counter-example for the pre-repair manual layout (D6). Tie: the '
         'implementation\'s cof goes through the model (describe / parameters / rebuilt arguments compared), all callable '
         'views incl. OrdinaryKriging.gamma_model and VariogramEstimator.predict are evaluated on a lag grid, metrics '
-        'against their documented definitions.',
+        'against their documented definitions. The code\'s own describe() / parameters / fitted_model_function are translated (Gen/Views) and proved to have exactly this layout (C04_source_describe/_rebuild/_parameters/_views_agree).',
    note='View equality is compared at 1e-10; sums of models are checked on the implementation only.',
    technique='Lean 4 proof (case analysis over the coefficient layouts) + correspondence', design='6 C04'),
  'C05': dict(
@@ -176,7 +176,7 @@ CHECKS.update({
    text='Theorems: per-axis grouping uses open-closed intervals (loop spec by induction); table entry i*nt+j is the '
         'estimator over exactly the differences of space class i and time class j (flatMap/index arithmetic); marginals '
         'are the corresponding column / row. Tie: implementation table, groups and marginals vs the model on the '
-        'implementation\'s own distances and edges + brute-force oracle.',
+        'implementation\'s own distances and edges + brute-force oracle. C14_table: the whole table from edges, distances and values - class membership is exactly the open-closed interval, pairs at distance 0 are in no class. The statements of _calc_diff / lag_classes / _get_member are pinned (C14_source_table).',
    note='', technique='Lean 4 proof (induction, index arithmetic) + exact-rational correspondence', design='6 C14'),
  'C15': dict(
    text='Theorems: generated sum / product / product-sum formulas are the documented combinations; every sample pairs '
@@ -199,7 +199,7 @@ CHECKS.update({
         'monotonicity incl. out-of-range levels); the middle value is np.median; identical members give three equal bounds; counter-examples for the '
         'truncated level (D12) and the re-read resolved maxlag (D11). Tie: Monte-Carlo members re-created independently, '
         'their percentiles taken by the model and compared with propagate; reproducibility, zero-noise identity, source '
-        'snapshot before/after.',
+        'snapshot before/after. C19_source pins the percentile levels and the three result columns of propagate.',
    note='Known finding D11. NumPy Generator stream is external.',
    technique='Lean 4 proof (quantile monotonicity) + correspondence', design='6 C19'),
 })
